@@ -23,10 +23,27 @@ EXTENDS Lattice
 Flavours == {"tms", "tms_nw", "kml", "wmts"}
 RowsFromNorth(f) == f \in {"wmts", "tms_nw"}
 
-\* internal tile for a public address <<x, y, z>> (NoTile if outside the matrix)
+\* TileServiceGrid.internal_tile_coord: the global profiles (global-mercator / global-geodetic: exact default
+\* bbox) hide level 0 from TMS (the only service with use_profiles), sqrt2 grids expose every second level.
+\* sf = _skip_first_level, so = _skip_odd_level; both FALSE for 'local' grids (pass a record without them
+\* through WithProfile).
+WithProfile(g, sf, so) == [ul |-> g.ul, bbox |-> g.bbox, tw |-> g.tw, th |-> g.th, res |-> g.res, sn |-> g.sn, sd |-> g.sd,
+                           ms |-> g.ms, thr |-> g.thr, sf |-> sf, so |-> so]
+HasProfile(g) == "sf" \in DOMAIN g
+SkipFirst(g) == HasProfile(g) /\ g.sf
+SkipOdd(g) == HasProfile(g) /\ g.so
+InternalLevel(g, f, z) ==
+  LET z1 == IF f = "tms" /\ SkipFirst(g) THEN z + 1 ELSE z IN
+  IF SkipOdd(g) THEN 2 * z1 ELSE z1
+\* tile_sets: the public TMS order n stands for this internal level
+TmsLevel(g, n) == IF SkipFirst(g) THEN (IF SkipOdd(g) THEN 2 + 2 * n ELSE 1 + n) ELSE (IF SkipOdd(g) THEN 2 * n ELSE n)
+TmsOrders(g) == {n \in 0 .. NLevels(g) - 1 : TmsLevel(g, n) \in Levels(g)}
+
+\* internal tile for a public address <<x, y, z>> (NoTile if negative level or outside the matrix)
 Internal(g, f, a) ==
-  IF ~LimitTile(g, a) THEN NoTile
-  ELSE IF RowsFromNorth(f) # g.ul THEN FlipTile(g, a) ELSE a
+  LET t == <<a[1], a[2], InternalLevel(g, f, a[3])>> IN
+  IF a[3] < 0 \/ ~LimitTile(g, t) THEN NoTile
+  ELSE IF RowsFromNorth(f) # g.ul THEN FlipTile(g, t) ELSE t
 Served(g, f, a) == TileBBox(g, Internal(g, f, a))
 
 \* which flavours offer the grid at all
@@ -35,7 +52,7 @@ Offered(g, f) == IF f = "wmts" THEN SupportsOrigin(g, TRUE) ELSE TRUE
 \* ---- what a standards-following client computes ----
 \* TMS 1.0.0: tiles are counted east and north from <Origin>
 ClientTMS(origin, g, a) ==
-  LET r == Res(g, a[3]) IN
+  LET r == Res(g, TmsLevel(g, a[3])) IN          \* units-per-pixel of TileSet order a[3]
   <<origin[1] + a[1] * g.tw * r, origin[2] + a[2] * g.th * r,
     origin[1] + (a[1] + 1) * g.tw * r, origin[2] + (a[2] + 1) * g.th * r>>
 
